@@ -119,8 +119,12 @@ def judge(rcpts, chain, hdr_lines, body, sender):
     store = RecordingStore()
     q = Queue(store)
     try:
+        made = {}
         for spec in chain:
-            q.add_policy(make_policy(spec))
+            # the same policy given twice in a chain is the same object registered twice
+            if spec not in made:
+                made[spec] = make_policy(spec)
+            q.add_policy(made[spec])
         results = q.enqueue(env)
     except Exception as e:
         return [('C16:exception:%s' % type(e).__name__, '%r %r: %r' % (rcpts, chain, e))], 0, False
@@ -211,7 +215,16 @@ _hdrs = st.lists(st.sampled_from(['Subject: test', 'From: a@b', 'To: c@d', 'Date
                                   'Message-Id: <orig@id>', 'Received: from x by y; date', 'X-Dup: 1', 'X-Dup: 2',
                                   'date: lower-case name', 'MESSAGE-ID: <upper@id>', 'X-8bit: \udce9']),
                  min_size=1, max_size=6, unique=True)
-_case = st.tuples(st.lists(_rcpt, max_size=8), st.lists(_policy, max_size=6), _hdrs,
+@st.composite
+def _chain(draw):
+    chain = draw(st.lists(_policy, max_size=6))
+    if chain and draw(st.integers(0, 2)) == 0:
+        # a policy that appears twice (e.g. two forwarding hops with the same rule set, two Received headers)
+        chain.insert(draw(st.integers(0, len(chain))), chain[draw(st.integers(0, len(chain) - 1))])
+    return chain
+
+
+_case = st.tuples(st.lists(_rcpt, max_size=8), _chain(), _hdrs,
                   st.sampled_from([b'', b'body\r\n', b'\r\nleading blank\r\n', b'\xff\x00 8bit\r\n.\r\n']),
                   st.sampled_from(['sender@example.com', '', 'S@X']))
 
